@@ -348,6 +348,21 @@ def refused_write_script(c):
     return {"cfg": c, "tree": TREE, "ops": ops}
 
 
+def reinit_script(c):
+    """INIT again without DESTROY while handles are open: the handles stay valid and distinct from every later one; then
+    DESTROY + INIT (remount): everything is released"""
+    f1 = 0 if c["no_open"] else 1
+    d1 = 0 if c["no_opendir"] else f1 + 1
+    ops = [{"op": "lookup", "p": 1, "name": "a"}, {"op": "lookup", "p": 1, "name": "b"}, {"op": "open", "p": 2, "flags": O_RDWR},
+           {"op": "opendir", "p": 1}, {"op": "init"},
+           {"op": "open", "p": 3, "flags": O_RDWR}, {"op": "getattr_h", "p": 2, "h": f1}, {"op": "read", "p": 2, "h": f1, "size": 8},
+           {"op": "open", "p": 3, "flags": O_RDWR}, {"op": "opendir", "p": 1}, {"op": "readdir", "p": 1, "h": d1, "size": 4096, "plus": False},
+           {"op": "getattr_h", "p": 2, "h": f1}, {"op": "create", "p": 1, "name": "n", "flags": O_RDWR}, {"op": "getattr_h", "p": 2, "h": f1},
+           {"op": "release", "p": 2, "h": f1}, {"op": "init"}, {"op": "lookup", "p": 1, "name": "a"},
+           {"op": "destroy"}, {"op": "init"}, {"op": "lookup", "p": 1, "name": "a"}, {"op": "open", "p": 2, "flags": O_RDWR}, {"op": "quiesce"}]
+    return {"cfg": c, "tree": TREE, "ops": ops}
+
+
 def c15_scens(ctx):
     scens = []
     cfgs = [cfg(fh=fh, no_open=no, no_opendir=nod, hostino=(fh and no)) for fh in (False, True) for no in (False, True) for nod in (False, True)]
@@ -363,6 +378,7 @@ def c15_scens(ctx):
         n_inj += len(inj)
         scens += inj
         scens.append(refused_write_script(c))
+        scens.append(reinit_script(c))
     return scens, hist, n_inj, cfgs
 
 
@@ -408,6 +424,17 @@ def run_c15(ctx):
         raise C.ToolError("coverage gate: configurations without a quiescent census: %s" % sorted(quiet))
     if not any("EMFILE" in v for v in inj_stat.values()):
         raise C.ToolError("coverage gate: EMFILE injection never fired")
+    up, reinits = True, 0
+    for r in rows:
+        if r["e"] == "Cfg":
+            up = True
+        elif r["e"] == "Op" and r["op"] == "destroy":
+            up = False
+        elif r["e"] == "Op" and r["op"] == "init" and r["status"] == "OK":
+            reinits += up
+            up = True
+    if reinits == 0:
+        raise C.ToolError("coverage gate: no second INIT without DESTROY in the C15 histories")
     refused_w = sum(1 for r in rows if r["e"] == "Op" and r["op"] == "write" and r["status"] == "EPERM")
     if refused_w == 0:
         raise C.ToolError("coverage gate: no write was refused by seal_size (the handle must survive a refused request)")
@@ -420,6 +447,7 @@ def run_c15(ctx):
         "injected_op_statuses": {k: sorted(v) for k, v in sorted(inj_stat.items())},
         "refused_misuses": misuse,
         "writes_refused_by_seal_size": refused_w,
+        "inits_without_destroy": reinits,
         "exported_behaviours_replayed": n_exp,
         "model_checking": mcinfo,
     })
